@@ -340,7 +340,8 @@ struct TextGen {
 			                             "2.470328229206232720e-324", "2.470328229206232721e-324", "1e-400", "2.2250738585072014e-308",
 			                             "2.2250738585072011e-308", "9007199254740993.0", "9007199254740992.5",
 			                             "0.1", "0.30000000000000004", "123456789012345678901234567890.0", "1E+2", "0e0", "0.0",
-			                             "0.0000000000000000000000000000000000000000000001e46", "1e00000000000000000000010", "1e-0"};
+			                             "0.0000000000000000000000000000000000000000000001e46", "1e00000000000000000000010", "1e-0",
+			                             "9E-339999999999999990033", "1e+99999999999999999999", "0e-77779573856", "5e-4294967296", "5e4294967297"};
 			if (c.coin(20))
 				out += '-';
 			out += edge[c.pickn(sizeof(edge) / sizeof(edge[0]))];
